@@ -447,9 +447,9 @@ K_SHM = "crash:shm-created-not-truncated-survivor-hangs"      # fixed in /repo b
 K_STATIC = "crash:service-create-before-unlock-static-config-stays"
 K_SVC_DROP = "crash:service-drop-tag-first-orphans-configs"
 K_LISTENER = "crash:listener-create-residue-event-mgmt"
-K_CLEANER_PTAG = "crash:cleaner-port-tag-removed-registry-entry-stays"
+K_CLEANER_PTAG = "crash:cleaner-port-tag-removed-registry-entry-stays"   # fixed in /repo by 841a15f, no longer a class
 K_CONN = "crash:connection-initialised-port-not-reserved-residue"
-ROOT_CAUSE_KEYS = [K_NODE_CREATE, K_NO_DETAILS, K_NODE_DROP, K_TAG, K_STATIC, K_SVC_DROP, K_LISTENER, K_CLEANER_PTAG, K_CONN]
+ROOT_CAUSE_KEYS = [K_NODE_CREATE, K_NO_DETAILS, K_NODE_DROP, K_TAG, K_STATIC, K_SVC_DROP, K_LISTENER, K_CONN]
 
 
 def _residue(sym, prefix="residue-after-cleanup:"):
@@ -593,13 +593,8 @@ def classify(process, wk, at, syms, uname, done_win=None, done_all=None):
             all(re.match(r"^probe-differs:svc n1 \w+:err:ExceedsMaxNumberOfNodes$", x) or
                 (_residue(x, "residue-after-shutdown:") is not None and _residue(x, "residue-after-shutdown:") <= svc_kinds) for x in syms):
         return K_SVC_DROP
-    # (9) the CLEANER died right behind the removal of a port tag of the dead node (last performed call), before the port's
-    #     registry entry is released: the next cleanup gets AlreadyRemoved from remove_port_tag, treats it as a failure and
-    #     skips the port for ever (service/mod.rs __internal_remove_node_from_service, cleanup_port_resources)
-    if cleaner and last_call in ("remove", "unlink") and last_path.endswith(".port_tag") and syms and \
-            not any(x in last_path for x in node_ids(_created(da, r"^R/nodes/#\d+$"))) and \
-            all(x.startswith("probe-differs:") or _residue(x, "residue-after-shutdown:") == {"connection"} for x in syms):
-        return K_CLEANER_PTAG
+    # (9) crash:cleaner-port-tag-removed-registry-entry-stays (cleaner killed right behind the removal of a dead node's port
+    #     tag) was repaired in /repo (841a15f): unkeyed VIOLATION again; its crash points run first as regression cases
     # (10) the process died right behind the fchmod 0600 that finalises a connection segment it created in this window (last
     #      performed call), before it reserved its port in the connection state: state 0 never becomes MarkedForDestruction
     if not cleaner and last_call == "fchmod" and last_path.endswith(".connection") and "mode=0600" in last_args and \
@@ -659,7 +654,7 @@ def classifier_selftest():
         (("victim", "svc-open-ps", at, [nodes_probe, rs + "dynamic-config,static-config"], "self", [tag], [mk, tag]), None),   # the seeded open reordering
         (("cleaner", "cleaner@full_ev", at, [nodes_probe.replace("ps", "ev")], "self", [], ["mkdir R/nodes/#10 mode=0750 ok", "remove R/nodes/#10/P_H3.service_tag - ok"]), K_SVC_DROP),
         (("cleaner", "cleaner@full_ev", at, [nodes_probe.replace("ps", "ev")], "self", [], ["remove R/nodes/#1/P_H3.service_tag - ok"]), None),   # the dead node's tag
-        (("cleaner", "cleaner@full_ps", at, ["probe-differs:send:ok:3"], "self", [], [rmptag]), K_CLEANER_PTAG),
+        (("cleaner", "cleaner@full_ps", at, ["probe-differs:send:ok:3"], "self", [], [rmptag]), None),                                   # fixed (841a15f): unkeyed again
         (("cleaner", "cleaner@full_ps", at, ["probe-differs:send:ok:3"], "self", [], [rmptag, "stat R/nodes/#1 - ok"]), None),           # not the last call
         (("victim", "drop_p@port_pub", at, ["probe-differs:send:ok:3"], "self", [rmptag], [rmptag]), None),                               # not the cleaner
         (("victim", "port-create-pub@port_pub", at, [rs + "connection"], "self", [conn, connfin], [mk, conn, connfin]), K_CONN),
@@ -1034,6 +1029,38 @@ def enumerate_as(ctx, tdir, scs, user, th, model_steps, classes, stats):
     ctx.log("user %s: enumeration of %d cases (%d skipped by the time budget), %.1fs, %d failing cases" % (uname, len(jobs) - skipped, skipped, time.time() - t_enum, nfail))
 
 
+def regression_cleaner_port_tag(ctx, tdir, users):
+    """former finding crash:cleaner-port-tag-removed-registry-entry-stays (fixed: 841a15f): the cleaner is killed right BEHIND
+    every removal of a port tag of the dead node; the survivor's second cleanup must finish the job (the dead port leaves the
+    registry: the probe equals the reference, e.g. send reaches 2 subscribers again, a new writer is accepted)."""
+    n = 0
+    with cf.ThreadPoolExecutor(max_workers=vlib.NPROC) as ex:
+        for user in users:
+            refs = {sc: (ex.submit(run_case, tdir, sc, user=user), ex.submit(run_case, tdir, sc, None, False, 0, user=user))
+                    for sc in ("full_ps", "full_ev", "full_rr", "full_bb")}
+            jobs = []
+            for sc, (f0, fc) in refs.items():
+                ref, rc_ = f0.result(), fc.result()
+                cc = canon_trace(rc_.get("cleaner_trace", []), rc_["canon"])
+                for j, l in enumerate(cc, 1):
+                    if re.match(r"^(remove|unlink) \S+\.port_tag ", l) and l.endswith(" ok"):
+                        jobs.append((sc, j, l, ref, ex.submit(run_case, tdir, sc, None, False, j, True, user=user)))
+            for sc, j, l, ref, f in jobs:
+                res = f.result()
+                n += 1
+                mine = canon_trace(res.get("cleaner_trace", []), res["canon"])
+                syms = [b[0] for b in judge(res, ref)]
+                if syms and not (mine and re.search(r"\.port_tag ", mine[-1])):
+                    continue                # directory order moved the index to another call: covered by the enumeration
+                if syms:
+                    ctx.violation("regression of fix 841a15f (cleaner killed right behind the removal of a dead node's port tag, user %s): scenario %s, cleaner gated call %d (%s): %s" % (
+                                      user or "self", sc, j, l, syms),
+                                  {"scenario": sc, "crash_index": j, "process": "cleaner", "kill_after": True, "run_as_user": user or "self", "call_at_crash_point": l,
+                                   "symptoms": syms, "survivor_after": res["phases"].get("after"), "survivor_probe": res["phases"].get("probe"), "how_to_rerun": replay_cmd(res)})
+    ctx.cov["cleaner_port_tag_regression_cases"] = n
+    return n
+
+
 def regression_zero_size(ctx, tdir):
     """former finding crash:shm-created-not-truncated-survivor-hangs (fixed: 868edb1): as root, kill the victim right before
     every ftruncate of a freshly created shm object; the survivor's cleanup must terminate and satisfy the oracle (a listener's
@@ -1132,6 +1159,7 @@ def run(ctx):
                       {"failed": [list(map(str, x)) for x in st]}, no_input=True)
     if not only:
         regression_zero_size(ctx, tdir)
+        regression_cleaner_port_tag(ctx, tdir, users)
     model_steps = model_step_lists(ctx)
     classes = {}
     stats = {"ncases": 0, "nfail": 0, "prefix_mismatch": 0, "roles": set(), "per_scn": {}, "tie_bad": [], "tie_checked": 0, "tie_user": users[0], "seen_roles": set(), "seen_croles": set(), "selected": 0, "skipped": 0, "samples": [], "nontrivial": set(), "nusers": len(users)}
